@@ -456,6 +456,32 @@ pub fn c04_state(rp: &Position, b: &Board, played: bool) -> Vec<Divergence> {
                 d.push(Divergence::new("hash-trait-differs-for-equal-boards", format!("{fen}: equal boards feed different bytes to Hasher")));
             }
         }
+        // neighbours of this position that differ in exactly one identity component (marker removed,
+        // one right removed): whenever the implementation's `==` calls two of them equal, their hashes
+        // (and the bytes fed to a Hasher) must be equal too
+        let mut neighbours: Vec<Position> = vec![];
+        if rp.ep.is_some() {
+            let mut q = rp.clone();
+            q.ep = None;
+            neighbours.push(q);
+        }
+        for i in 0..4 {
+            if rp.rights[i] {
+                let mut q = rp.clone();
+                q.rights[i] = false;
+                neighbours.push(q);
+            }
+        }
+        for q in neighbours {
+            if let Ok(nb) = parse_board(&q.to_fen()) {
+                if nb == *b && (nb.zobrist() != b.zobrist() || hash_trait_bytes(&nb) != hash_trait_bytes(b)) {
+                    d.push(Divergence::new(
+                        "equal-boards-hash-differently",
+                        format!("'{fen}' == '{}' according to the implementation, but their hashes differ", q.to_fen()),
+                    ));
+                }
+            }
+        }
         // clocks are not part of the identity: same position with other clocks hashes the same
         let mut other = rp.clone();
         other.half = (rp.half + 7) % 90;
